@@ -70,6 +70,7 @@ func genSession(t *rapid.T) *Session {
 		r.First = rapid.SampledFrom([]string{"", "", "", "", "", "", "", "", "", "", "", "", "", "", "", "", "", "", "", "", "", "", "", "", "poll", "empty", "eof", "error"}).Draw(t, "first")
 		r.Target = rapid.SampledFrom([]string{"", "", "dev"}).Draw(t, "target")
 		r.Paths = rapid.IntRange(0, 2).Draw(t, "paths")
+		r.Dress = rapid.SampledFrom([]int{0, 0, 1, 1, 3, 4, 9, 16, 31}).Draw(t, "dress")
 		if pc := rapid.IntRange(0, nCfg-1).Draw(t, "pre-config"); rapid.IntRange(0, 1).Draw(t, "pre-config-set") == 0 && i > 0 {
 			r.PreConfig = pc
 		}
@@ -89,6 +90,7 @@ func genSession(t *rapid.T) *Session {
 		sub := AgentSub{}
 		sub.Mode = rapid.SampledFrom([]string{ModeStream, ModePoll, ModeOnce}).Draw(t, "agent-mode")
 		sub.Target = rapid.SampledFrom([]string{"", "dev"}).Draw(t, "agent-target")
+		sub.Dress = rapid.SampledFrom([]int{0, 0, 1, 1, 3, 4, 9, 16, 31}).Draw(t, "agent-dress")
 		sub.Msgs = rapid.SliceOfN(rapid.SampledFrom([]string{"poll", "poll", "sub-stream", "sub-poll", "empty", "sub-once"}), 0, 3).Draw(t, "agent-msgs")
 		sub.After = rapid.SampledFrom([]int{0, 0, 1, 2, 5}).Draw(t, "agent-after")
 		sub.Rounds = rapid.IntRange(0, 2).Draw(t, "agent-rounds")
